@@ -96,6 +96,16 @@ CHECKS.update({
          "groups and otherwise one of the bytes of the displayed bank being fetched."),
    note="Trusted: TLC, probes through canonical ports. Multi-device ports are not judged. Floating-bus window is generous (+-8 T), so only the set of allowed bytes is decided."),
 })
+CHECKS.update({
+ "C08": dict(
+   category="model_checking", design_ref="4 (C08)", technique="TLC constant-level inverse-map check + TLC validation of every pixel of recorded frames against the TLA+ decode",
+   text=("Screen.tla carries the standard decode exactly as worded (offset formula, ink/paper/BRIGHT, FLASH). MC_Screen checks that the implementation's "
+         "address->(line,column) maps invert it for all 6912 offsets. On the real emulator random and structured screens are delivered by 16 paths "
+         "(CPU through either window, LDIR, fast-load, SNA, SZX stored/compressed, SCR, pokes; 48K/128K/shadow bank) and ScreenTrace compares all 49152 "
+         "pixels of every later frame with the decode, inferring the flash phase (a whole 32-frame flash cycle is watched), and judges single bytes "
+         "changed at beam time +-40 T with the statement's 'clearly before/after' = +-16 T."),
+   note="Trusted: TLC, the recording frame buffer, the clock/bus-write hooks for the beam-relative part. Sampling over screen contents."),
+})
 NOT_YET = {}
 
 HOOK_COMMITS = ["71990aa"]
